@@ -16,11 +16,17 @@ shard (decoder history): it must give the same answer as a fresh one.
 Part 2, FileProxy (E2 histories).  A stream is a concatenation of <=3 lines of a line
 alphabet (plain, empty, ANSI-styled, markup-like, emoji-code-like, number, wide, a
 line that leaves an SGR state open), every line ended by a newline or the last left
-open.  For each stream EVERY way of cutting it into 4 (thorough also 5) ``write()``
-calls (cut points at every character position, also inside escape sequences; empty
-writes included, which covers fewer writes) x every placement of <=2 ``flush()`` calls
-in the gaps (also twice in the same gap) is executed on a fresh
-``FileProxy(console, sink)``; then a closing flush, then one more.  After EVERY call
+open.  For each stream EVERY way of cutting it into k ``write()`` calls (cut points at
+every character position, also inside escape sequences; empty writes included, which
+covers fewer writes) x every placement of <=f ``flush()`` calls in the gaps (also twice
+in the same gap) is executed on a fresh ``FileProxy(console, sink)``; then a closing
+flush, then one more.  (k, f) per stream set, see stream_sets():
+  quick    1-line streams k=4 f<=2; <=2-line streams k=4 f<=1 and k=3 f<=2; 3-line
+           streams k=2 f<=1 and k=3 f=0
+  thorough <=3-line streams over the 5-line core alphabet k=4 f<=2; <=2-line streams
+           over all 9 lines k=4 f<=2 and (core) k=5 f<=1; 3-line streams over 9 lines
+           k=3 f<=1; <=2-line streams incl. SGR 22 / OSC 8 lines k=3 f<=2
+After EVERY call
 the console output is decoded with vf/term.py and compared with a reference proxy
 (pending text = written text since the last newline / flush):
   * the visible characters printed so far, newlines removed, are exactly the visible
@@ -39,7 +45,12 @@ with builtin ``print(chunk, end="")`` to the redirected sys.stdout / ``sys.stder
 (and alternating between both), the file replayed on the vf/term.py Screen and the
 rows above the live frame read back.
 
-Measured on this machine (see the agent report / evidence for the numbers of a run).
+Measured (the machine was shared with ~15 other jobs, load average 60-120, so wall times are
+upper bounds; CPU cost is ~0.65 ms per history and ~1.2 ms per round-trip line when unloaded):
+  quick    278,283 judged cases (35.5 k lines + 242.8 k histories, 1.20 M write/flush calls),
+           1,407 distinct outcomes, 150 s wall with 16 workers under load (est. 15-25 s idle)
+  thorough 5,079,478 judged cases (233.7 k lines + 4.85 M histories, 26.7 M calls),
+           1,626 distinct outcomes, 45 min wall with 16 workers under load (est. 4-6 min idle)
 """
 import collections
 import io
